@@ -38,6 +38,13 @@ def justified14 (past : List Op) (m : Bytes) : Option CC14Msg :=
     | none => none
   else none
 
+/-- replace the value byte of every Control Change by `f` of it (everything else untouched) -/
+def relabelB (f : Nat → Nat) (b : Bytes) : Bytes :=
+  if 176 ≤ b.status ∧ b.status < 192 then ⟨b.status, b.d1, f b.d2⟩ else b
+def relabelOp (f : Nat → Nat) : Op → Op
+  | .feed b => .feed (relabelB f b)
+  | .reset => .reset
+
 /-- C07: the two Control Change messages a 14-bit message encodes to -/
 def specCC14Encoding (m : CC14Msg) : List Bytes :=
   [⟨176 + m.channel, m.msb, m.value / 128⟩, ⟨176 + m.channel, m.msb + 32, m.value % 128⟩]
